@@ -28,6 +28,8 @@ type verifCase struct {
 	Args []string          `json:"args"`
 	// command-line arguments placed BEFORE "-config <file>" (flags may come in any order)
 	PreArgs []string `json:"pre_args"`
+	// how the configuration file is named on the command line: "" / "-config F" (two words), "-config=F", "--config F", "--config=F"
+	ConfigForm string `json:"config_form"`
 }
 
 func TestVerifDriver(t *testing.T) {
@@ -93,7 +95,16 @@ func verifOptions(c verifCase) map[string]string {
 	}
 	oldArgs, oldCL := os.Args, flag.CommandLine
 	defer func() { os.Args, flag.CommandLine = oldArgs, oldCL }()
-	os.Args = append(append(append([]string{"vflow"}, c.PreArgs...), "-config", cfg), c.Args...)
+	cfgArgs := []string{"-config", cfg}
+	switch c.ConfigForm {
+	case "-config=F":
+		cfgArgs = []string{"-config=" + cfg}
+	case "--config F":
+		cfgArgs = []string{"--config", cfg}
+	case "--config=F":
+		cfgArgs = []string{"--config=" + cfg}
+	}
+	os.Args = append(append(append([]string{"vflow"}, c.PreArgs...), cfgArgs...), c.Args...)
 	flag.CommandLine = flag.NewFlagSet("vflow", flag.ContinueOnError)
 	flag.CommandLine.SetOutput(ioutil.Discard)
 	o := NewOptions()
